@@ -452,6 +452,10 @@ def run_shard(ctx):
         st.fixed_dictionaries({"op": st.just("insert_column"), "x": st.integers(0, 5), "r": st.integers(1, 2), "cs": st.just(0),
                                "form": st.just("t")}),
         st.fixed_dictionaries({"op": st.just("delete_row"), "y": st.integers(0, 5), "form": st.just("t")}),
+        st.fixed_dictionaries({"op": st.just("transpose")}),
+        st.fixed_dictionaries({"op": st.just("strip"), "k": st.sampled_from(["rstrip", "optimize_width"]), "aggr": st.booleans()}),
+        # a cached read of the first row right after such a whole-table operation
+        st.fixed_dictionaries({"op": st.just("warm"), "k": st.sampled_from(["get_row", "get_cell", "get_value", "get_row_noclone"]), "kx": k, "ky": st.just(0)}),
     )
     cases = st.fixed_dictionaries({
         "spec": st_initial(()), "pre": st.lists(pre_op, max_size=4), "getter": st.sampled_from(GETTERS),
